@@ -93,6 +93,8 @@ def parser_exec_path(overlay, name):
     for l in q.stdout.decode('utf-8', 'replace').split('\n'):
         if l.startswith('@exec_path = '):
             return re.findall(r'"([^"]*)"', l)
+    if q.returncode != 0:
+        return ['!rejected', q.stderr.decode('utf-8', 'replace')[-300:]]
     return None
 
 
@@ -155,6 +157,11 @@ def run(ctx):
             att = header_attachment(texts[x])
             if att is None:
                 continue
+            if ep and ep[0] == '!rejected':
+                nbad += 1
+                ctx.violation('%s: the reference parser rejects the built profile %s, so its attachment %r cannot be shown to match @{exec_path}: %s' % (
+                    cfg.name(), x, att[:120], ep[1].strip().split('\n')[-1][:160]), {'config': cfg.name(), 'file': x, 'attachment': att, 'parser': ep[1]})
+                continue
             tot += 1
             try:
                 a, b = lang([att]), lang(ep)
@@ -194,7 +201,7 @@ def run(ctx):
                 t = t.replace('P', 'p').replace('U', 'u')      # hotfix ran on the host before? no: directives run after builders, rules keep the requested case
                 for tgt in args:
                     tb = tgt if tgt in texts else tgt + '.apparmor.d'
-                    if tb not in texts or eps.get(tb) is None:
+                    if tb not in texts or eps.get(tb) is None or eps[tb][0] == '!rejected':
                         continue
                     nexec += 1
                     want = lang(eps[tb])
